@@ -447,10 +447,25 @@ func searchRect(obj geojson.Object) geometry.Rect {
 		}
 		// otherwise the disc crosses the antimeridian: search the whole belt
 	}
-	rect.Min.X = math.Min(rect.Min.X, minLon)
-	rect.Min.Y = math.Min(rect.Min.Y, math.Max(minLat, -90))
-	rect.Max.X = math.Max(rect.Max.X, maxLon)
-	rect.Max.Y = math.Max(rect.Max.Y, math.Min(maxLat, 90))
+	// The polygon approximation of a disc touching a pole can have NaN
+	// vertices. A NaN box must never reach the R-tree (it corrupts the tree's
+	// node rectangles), so NaN components of the polygon box are ignored.
+	nanmin := func(a, b float64) float64 {
+		if math.IsNaN(a) {
+			return b
+		}
+		return math.Min(a, b)
+	}
+	nanmax := func(a, b float64) float64 {
+		if math.IsNaN(a) {
+			return b
+		}
+		return math.Max(a, b)
+	}
+	rect.Min.X = nanmin(rect.Min.X, minLon)
+	rect.Min.Y = nanmin(rect.Min.Y, math.Max(minLat, -90))
+	rect.Max.X = nanmax(rect.Max.X, maxLon)
+	rect.Max.Y = nanmax(rect.Max.Y, math.Min(maxLat, 90))
 	return rect
 }
 
